@@ -10,7 +10,9 @@ import (
 // RET instruction (no operands) generates 1 byte of machine code (0xC3).
 func processRET(env *Pass1, operands []ast.Exp) {
 	if len(operands) != 0 {
-		log.Printf("Warning: RET instruction should not have operands, but got %d.", len(operands))
+		// RET imm16 (C2 iw) is not implemented: report it instead of assembling a plain RET
+		log.Printf("error: RET with an operand is not supported, got %d operand(s)", len(operands))
+		return
 	}
 	// RET instruction size is 1 byte.
 	env.LOC += 1
